@@ -3,8 +3,8 @@
    storage scan), the decorators' effects, and exceptions raised at the statement where
    Python raises.  Storage is a list of decoded points; `norm` is the storage's
    serialise-then-deserialise round trip (identity for MemoryStorage, the CSV codec for
-   CSVStorage); `inplace` says that update mutates stored objects before the swap
-   (MemoryStorage).  Definitions only. *)
+   CSVStorage).  An update that fails part-way leaves the stored rows as they were (MemoryStorage
+   restores the objects it changed in place).  Definitions only. *)
 From Coq Require Import List ZArith NArith Bool Arith.
 From TF Require Import Base Bisect Query Index.
 Import ListNotations.
@@ -32,7 +32,6 @@ Section DB.
 Variable E : env.
 Variable C : cenv.
 Variable norm : point -> point.
-Variable inplace : bool.
 
 Definition nonempty {A} (l : list A) : bool := match l with [] => false | _ => true end.
 
@@ -313,13 +312,13 @@ Fixpoint update_loop (u : updspec) (sel : nat -> point -> res) (i : nat) (rows :
                   | inl (l, n) => inl (p :: l, n) | inr l => inr (p :: l) end
     | RB true =>
       match perform_update u p with
-      | UFail partial => inr ((if inplace then partial else p) :: r)
+      | UFail _ => inr (p :: r)
       | UOk p' =>
         let changed := negb (point_eqb p' p) in
         let stored := if changed then norm p' else p in
         match update_loop u sel (S i) r with
         | inl (l, n) => inl (stored :: l, if changed then S n else n)
-        | inr l => inr ((if inplace then p' else p) :: l)
+        | inr l => inr (p :: l)
         end
       end
     end
